@@ -132,8 +132,9 @@ func lifecycleOracle(prop string, c *Case, conn int, cs *connState, t *Transcrip
 	// position of AuthenticationOk and first ReadyForQuery in the write sequence
 	var authOkSeq, firstZSeq int64 = -1, -1
 	{
-		// map transcript message offsets to write events
-		off := t.Base
+		// map transcript message offsets to write events (offsets in the raw
+		// output: the one-byte answers to SSLRequests come first and are writes too)
+		off := 0
 		idx := 0
 		for _, e := range cs.Events {
 			if e.K != "write" {
@@ -573,7 +574,7 @@ func init() {
 	// ------------------------------------------------------------------ C12
 	register(&Prop{
 		ID: "C12", Level: "exploration", QuickS: 25, ThoroughS: 420, Race: true,
-		Rule:        "seeded startup negotiations: startup packets with 1-8 key/value pairs (duplicates, empty values, an empty key in the middle, missing final terminator, missing value), configured global parameter maps (nil, empty, custom keys) and version strings, with and without authentication, CancelRequest as first packet / after an SSLRequest was declined; callbacks read ClientParameters, ServerParameters and AuthenticatedUsername back; E2 share: 2-5 connections of different users connect concurrently to one server sharing one user-supplied map, under seeded schedules and (race shard) under the -race build with the HB-transparent scheduler; mixed-case keys, server_version configured through the map with and without a Version string, 2-4 connections served one after the other by the same server; the GlobalParameters option given twice (both user maps compared with their copies); sequential connections after a peer that vanished mid-reply; E2 variant: a CancelRequest on a connection accepted just before Server.Close; non-trivial = a session was established and at least one callback read the parameters back, or a cancel/malformed packet was refused; distinct = distinct case content hashes; variant look-alike-startup-packets: clients served one after the other whose startup packets have equal length and user names that collide under FNV-1a / FNV-1 / Adler-32 / multiply-by-31",
+		Rule:        "seeded startup negotiations: startup packets with 1-8 key/value pairs (duplicates, empty values, an empty key in the middle, missing final terminator, missing value), configured global parameter maps (nil, empty, custom keys) and version strings, with and without authentication, CancelRequest as first packet / after an SSLRequest was declined; callbacks read ClientParameters, ServerParameters and AuthenticatedUsername back; E2 share: 2-5 connections of different users connect concurrently to one server sharing one user-supplied map, under seeded schedules and (race shard) under the -race build with the HB-transparent scheduler; mixed-case keys, server_version configured through the map with and without a Version string, 2-4 connections served one after the other by the same server; the GlobalParameters option given twice (both user maps compared with their copies); sequential connections after a peer that vanished mid-reply; E2 variant: a CancelRequest on a connection accepted just before Server.Close; non-trivial = a session was established and at least one callback read the parameters back, or a cancel/malformed packet was refused; distinct = distinct case content hashes; variant look-alike-startup-packets: clients served one after the other whose startup packets have equal length and user names that collide under FNV-1a / FNV-1 / Adler-32 / multiply-by-31; an eighth of the servers have 1-3 session middlewares, one of which may refuse the session (the startup reply then ends without ReadyForQuery)",
 		Components:  append(append([]string{}, e1Components...), "E2 share: seeded scheduler interleaves the connecting users; race shard: -race build, kernel synchronisation hidden from the detector"),
 		Assumptions: commonAssumptions,
 		Gen:         genC12,
@@ -710,6 +711,18 @@ func genC12(r *Rand, tier string) *Case {
 	}
 	genGlobalParams(r, c)
 	c.Server.CloseHook = r.Chance(1, 3)
+	if r.Chance(1, 8) {
+		// session middlewares, one of which may refuse the session: a refused
+		// startup is never told ReadyForQuery
+		for n := r.Range(1, 3); n > 0; n-- {
+			c.Server.MW = append(c.Server.MW, MWSpec{})
+		}
+		if r.Bool() {
+			k := r.Intn(len(c.Server.MW))
+			c.Server.MW[k].Fail = true
+			c.Server.MW[k].Transient = r.Chance(1, 3)
+		}
+	}
 	c.Conns = []ConnCase{genC12One(r, c, "u"+r.Ident(3))}
 	if r.Chance(1, 5) {
 		// further connections served one after the other by the same server:
